@@ -246,7 +246,21 @@ def _ops(p):
     return out
 
 
-CASES = {"trace": case_trace, "pipe": case_pipe}
+def case_joint(ctx, inp):
+    """several pipelines built on the same leaves, computed in one graph by the expression engine"""
+    ans = ask({"progs": inp["progs"]})
+    if ans["status"] != "ok":
+        ctx.fail(f"expression engine failed on a joint computation: {ans['status']}: {ans.get('error')}", observed=ans.get("error"))
+        return
+    for i in ans["bad"]:
+        ctx.fail("a pipeline computed together with others differs from the same pipeline computed alone",
+                 observed={"index": i, "names": ans["names"]})
+    for i, p in enumerate(inp["progs"]):
+        ref = np.asarray(P.build(p, np, False))
+    ctx.branch(f"joint×{len(inp['progs'])}")
+
+
+CASES = {"trace": case_trace, "pipe": case_pipe, "joint": case_joint}
 
 
 # ---------------------------------------------------------------------------------------------
@@ -390,7 +404,49 @@ def gen_multistage(ctx, n):
         yield "pipe", {"prog": prog}
 
 
+def gen_joint(ctx, n):
+    """variants of one pipeline that differ in a single parameter (axis, keepdims, split_every, slice bounds, op)"""
+    rng = ctx.rng
+    for _ in range(n):
+        shape = U.rand_shape(rng, 2, 4)
+        base = _pipe_prog(rng, shape, rng.randint(0, 2))
+        nd = len(shape)
+        progs = []
+        for _ in range(rng.randint(3, 5)):
+            r = rng.random()
+            if r < 0.5:
+                progs.append({"op": "reduce", "fn": rng.choice(["sum", "sum", "max", "mean"]),
+                              "axis": rng.choice([None] + list(range(nd))), "keepdims": rng.random() < 0.5,
+                              "split_every": rng.choice([None, 2, 3]), "a": base})
+            elif r < 0.7:
+                progs.append({"op": "binary", "fn": rng.choice(["add", "multiply"]), "a": base, "b": {"scalar": rng.randint(-2, 2)}})
+            elif r < 0.85:
+                progs.append({"op": "rechunk", "chunks": [list(c) for c in U.rand_chunks(rng, shape)], "a": base})
+            else:
+                progs.append({"op": "map_blocks", "fn": rng.choice(["double", "addone"]), "a": base})
+        yield "joint", {"progs": progs}
+
+
+def gen_grid_reduce(ctx, n):
+    """reductions over several axes of block grids whose axes need different numbers of tree levels"""
+    rng = ctx.rng
+    for _ in range(n):
+        nd = rng.choice([2, 2, 3])
+        nb = [rng.choice([1, 2, 3, 5, 6, 9, 17]) for _ in range(nd)]
+        while U.prod_shape(nb) > 120:
+            nb[rng.randrange(nd)] = rng.choice([1, 2, 3])
+        shape = [b * rng.choice([1, 1, 2]) for b in nb]
+        chunks = [[s // b] * b for s, b in zip(shape, nb)]
+        leaf = {"op": "from_array", "data": [rng.randint(-3, 3) for _ in range(U.prod_shape(shape))], "shape": shape,
+                "dtype": "int64", "chunks": chunks}
+        axis = rng.choice([None, list(range(nd)), [0, nd - 1], 0, nd - 1])
+        yield "pipe", {"prog": {"op": "reduce", "fn": rng.choice(["sum", "max", "min", "mean", "prod"]), "axis": axis,
+                                "keepdims": rng.random() < 0.4, "split_every": rng.choice([None, None, 2, 3, 4]), "a": leaf}}
+
+
 def generate(ctx):
+    yield from gen_grid_reduce(ctx, ctx.n(30, 300))
+    yield from gen_joint(ctx, ctx.n(40, 400))
     yield from gen_multistage(ctx, ctx.n(25, 250))
     # the defect found while building this check (fixed): x + y with differently chunked operands
     yield "trace", {"prog": {"op": "binary", "fn": "add",
